@@ -7,11 +7,12 @@
 (* clauses).                                                                 *)
 EXTENDS SyncConc, Json
 
-CONSTANTS Prog, Emit
+CONSTANTS Prog, Emit,
+          PickM, PickR    \* "all" slices: only the programs whose code is PickR modulo PickM (0: all of them)
 
-VARIABLES g, ps, bad, fin, h
-vars == <<g, ps, bad, fin, h>>
-View == <<g, ps, bad, fin>>
+VARIABLES g, ps, bad, fin, h, pp
+vars == <<g, ps, bad, fin, h, pp>>
+View == <<g, ps, bad, fin, pp>>
 
 Cf(cap, ttl, tti, wg) ==
     [kind |-> "sync", cap |-> cap, ttl |-> ttl, tti |-> tti, weigher |-> wg, hconst |-> FALSE,
@@ -57,7 +58,37 @@ Programs ==
                  progs |-> <<<<IW(1,1,1,1), SY, IW(1,3,1,3), SY>>, <<IW(2,1,1,1), G(1)>>>>],
      burst  |-> [cfg |-> Cf(1, None, None, FALSE), progs |-> <<<<I(1,1,1), I(1,2,2), I(1,3,1), I(1,4,2)>>, <<ADV(1), G(1), G(2)>>>>]]
 
-P == Programs[Prog]
+\* Beside the catalogue: EVERY program of two threads with one or two operations each over a small
+\* alphabet (Prog = "all_unit", "all_wgt", "all_exp"), the configuration and the program chosen in the initial state.
+\* Thread t's n-th operation writes value t*100+n.
+Alpha(c, t, n) ==
+    (IF c.weigher THEN {IW(t, n, 1, 1), IW(t, n, 1, 2), IW(t, n, 2, 1)} ELSE {I(t, n, 1), I(t, n, 2)})
+    \cup {G(1), X(1), XA, SY}
+    \cup (IF c.ttl # None \/ c.tti # None THEN {ADV(1)} ELSE {})
+SeqsOf(c, t) == {<<a>> : a \in Alpha(c, t, 1)} \cup {<<a, b>> : a \in Alpha(c, t, 1), b \in Alpha(c, t, 2)}
+HasInsert(p) == \E i \in DOMAIN p : p[i].op = "Insert"
+AllCfgs ==
+    [unit |-> {Cf(1, None, None, FALSE)},
+     wgt  |-> {Cf(2, None, None, TRUE)},
+     exp  |-> {Cf(1, 1, None, FALSE), Cf(2, None, 1, FALSE)}]
+AllPrograms(sl) ==
+    UNION {{[cfg |-> c, progs |-> <<p1, p2>>] : p1 \in SeqsOf(c, 1), p2 \in SeqsOf(c, 2)} : c \in AllCfgs[sl]}
+AllSlices == [all_unit |-> "unit", all_wgt |-> "wgt", all_exp |-> "exp"]
+IsAll == Prog \in DOMAIN AllSlices
+OpCode(o) == CASE o.op = "Insert" -> o.k + 2 * o.w
+                [] o.op = "Get" -> 7
+                [] o.op = "Invalidate" -> 8
+                [] o.op = "InvalidateAll" -> 9
+                [] o.op = "Sync" -> 10
+                [] OTHER -> 11
+SeqCode(p) == IF Len(p) = 1 THEN OpCode(p[1]) ELSE 13 * OpCode(p[1]) + OpCode(p[2]) + 157
+ProgCode(x) == 331 * SeqCode(x.progs[1]) + SeqCode(x.progs[2])
+ProgSet == IF IsAll
+           THEN {x \in AllPrograms(AllSlices[Prog]) :
+                   /\ HasInsert(x.progs[1]) \/ HasInsert(x.progs[2])
+                   /\ PickM = 0 \/ ProgCode(x) % PickM = PickR}
+           ELSE {Programs[Prog]}
+P == pp
 
 \* after all threads have stopped: maintenance to quiescence, then the final observation
 Settle(s) == Canon(DoSync(DoSync([s EXCEPT !.mx = <<>>])))
@@ -81,7 +112,8 @@ FinalOk(s) ==
 
 OpId(t, ip) == t * 100 + ip
 
-Init == g = GInit(P.cfg, P.progs) /\ ps = P02Init /\ bad = {} /\ fin = FALSE /\ h = <<>>
+Init == /\ pp \in ProgSet
+        /\ g = GInit(pp.cfg, pp.progs) /\ ps = P02Init /\ bad = {} /\ fin = FALSE /\ h = <<>>
 
 StepT(t) ==
     /\ Enabled(g, t)
@@ -100,7 +132,7 @@ StepT(t) ==
           /\ ps' = ps2
           /\ bad' = IF okr THEN {} ELSE {"C02"}
           /\ h' = IF Emit THEN Append(h, t) ELSE h
-          /\ UNCHANGED fin
+          /\ UNCHANGED <<fin, pp>>
           /\ (Emit => PrintT(<<"EDGE", ToJson([prog |-> Prog, cfg |-> P.cfg, progs |-> P.progs, sched |-> h',
                                                last |-> [pcs |-> [u \in TIds |-> PcAt(g2.th[u])],
                                                          res |-> ResOf(g2.s), rlen |-> Len(g2.s.rch),
@@ -113,7 +145,7 @@ Finale ==
        IN /\ g' = [g EXCEPT !.s = s2]
           /\ bad' = (IF Allowed_C02(ps, e) THEN {} ELSE {"C02"}) \cup (IF FinalOk(s2) THEN {} ELSE {"FINAL"})
           /\ fin' = TRUE
-          /\ UNCHANGED <<ps, h>>
+          /\ UNCHANGED <<ps, h, pp>>
 
 Next == (\E t \in TIds : StepT(t)) \/ Finale
 
